@@ -210,6 +210,9 @@ def kernel_cases(chk, drv, C):
             case['profile_constants'] = prof
         for k_, v_ in prof.items():
             setattr(C, k_, v_)
+        # another operator on the same space with another boundary mode is built (and used once) first in the same process
+        decoy = VParallelAdvection([None, None, None, pts], basis, C, modes[(edge + 1) % 3])
+        decoy.step(f0.copy(), 0.5 * dt + 0.1, -c, r)
         adv = VParallelAdvection([None, None, None, pts], basis, C, mode)
         # the line is handed over as a strided view every third time (a line of a 4-D array in another memory order)
         big = np.full(2 * n, 3.5)
